@@ -4143,6 +4143,14 @@ func (a *Association) sendPayloadData(ctx context.Context, chunks []*chunkPayloa
 		a.writePending = true
 	}
 
+	if len(chunks) > 0 && chunks[0].stream != nil {
+		nBytes := 0
+		for _, c := range chunks {
+			nBytes += len(c.userData)
+		}
+		chunks[0].stream.onWriteAccepted(nBytes)
+	}
+
 	// Push the chunks into the pending queue first.
 	for _, c := range chunks {
 		a.pendingQueue.push(c)
